@@ -16,3 +16,7 @@ def spec(f):
 
 def lemma(f):
     return f
+
+
+def code_lemma(f):
+    return f
